@@ -271,6 +271,31 @@ fn check_layers_route(env: &Env, l: &Layers, o: &mut Outcome, from_files: bool) 
                         }
                     }
                 }
+                // ... and the units are the declared ones also when only surface and POS are loaded
+                if i == 2 || i == 3 || i == 5 {
+                    let (mode, mname) = if i == 5 { (Mode::B, "B") } else { (Mode::A, "A") };
+                    match analyze_list(&dict, mode, Some(sudachi::dic::subset::InfoSubset::SURFACE | sudachi::dic::subset::InfoSubset::POS_ID), &text) {
+                        Err(e) => f.push(Failure::new("analysis-error", format!("{}: analysing {:?} in mode {} with fields surface+POS: {:?}", ctx, text, mname, e))),
+                        Ok(l) => {
+                            let t = toks_of(&l);
+                            let own0 = (d as i32, WordId::new(d as u8, 0).as_raw());
+                            let exp: Vec<(i32, u32)> = match i {
+                                2 => vec![own0, (d as i32, WordId::new(d as u8, 1).as_raw())],
+                                3 => vec![own0, (0, 0)],
+                                _ => vec![own0, (0, 1)],
+                            };
+                            let got: Vec<(i32, u32)> = t.iter().map(|x| (x.dic_id, x.word_id)).collect();
+                            if got != exp {
+                                f.push(Failure::new("split-units-differ", format!("{}: {:?} in mode {} with only surface and POS loaded gives (dictionary, word) {:?}, declared {:?}", ctx, text, mname, got, exp)));
+                            }
+                            if let Some(first) = t.first() {
+                                if first.pos != rows[0].pos.to_vec() {
+                                    f.push(Failure::new("part-of-speech-differs", format!("{}: first unit of {:?} (mode {}, only surface and POS loaded) reports POS {:?}, declared {:?}", ctx, text, mname, first.pos, rows[0].pos)));
+                                }
+                            }
+                        }
+                    }
+                }
                 if i == 2 || i == 3 {
                     match analyze(&dict, Mode::A, &text) {
                         Err(e) => f.push(Failure::new("analysis-error", format!("{}: analysing {:?} in mode A: {:?}", ctx, text, e))),
@@ -513,6 +538,135 @@ pub fn main(tier: Tier, replay: Option<String>) -> i32 {
             Strategy::Bfs,
             Some(120),
             json!({"lists": 5}),
+        ));
+    }
+    // one user dictionary compiled from several `read_lexicon` calls on one builder, one of which fails at its
+    // second record (the first record, which brings a part of speech of its own, may stay or go - both are
+    // accepted): every word that IS in the loaded dictionary reports the part of speech its source row declares
+    {
+        let e4 = env.clone();
+        let mut orders: Vec<Vec<u8>> = Vec::new();
+        // chunks: 0 = rows with own POS 1, 1 = half-bad (good row with own POS 2, then a malformed row), 2 = rows with own POS 3,
+        // 3 = rows with system POS; every order of every subset containing the half-bad chunk
+        fn perms(rest: &Vec<u8>, cur: &mut Vec<u8>, out: &mut Vec<Vec<u8>>) {
+            if cur.contains(&1) && cur.len() >= 2 {
+                out.push(cur.clone());
+            }
+            for &x in rest {
+                if !cur.contains(&x) {
+                    cur.push(x);
+                    perms(rest, cur, out);
+                    cur.pop();
+                }
+            }
+        }
+        perms(&vec![0, 1, 2, 3], &mut Vec::new(), &mut orders);
+        let n = orders.len();
+        jobs.push(job(
+            CaseSpace {
+                label: "layers/builder-used-after-a-rejected-lexicon".into(),
+                cases: orders,
+                check_fn: Box::new(move |order: &Vec<u8>| {
+                    let mut o = Outcome::new();
+                    o.nontrivial = true;
+                    o.evaluations = 1;
+                    let ctx = format!("user dictionary compiled from read_lexicon calls {:?} (1 = the call that fails at its second record)", order);
+                    let chunk_rows = |k: u8| -> Vec<Row> {
+                        let own = |d: usize, r: Row| -> Row {
+                            let mut r = r;
+                            r.pos = own_pos(d);
+                            r
+                        };
+                        match k {
+                            0 => vec![own(1, Row::new("かあ", 1, 1, 10, P_NOUN).reading("カア")), own(1, Row::new("かい", 1, 1, 10, P_NOUN).reading("カイ"))],
+                            1 => vec![own(2, Row::new("きあ", 1, 1, 10, P_NOUN).reading("キア"))],
+                            2 => vec![own(3, Row::new("くあ", 1, 1, 10, P_NOUN).reading("クア")), own(4, Row::new("くい", 1, 1, 10, P_NOUN).reading("クイ"))],
+                            _ => vec![Row::new("けあ", 1, 1, 10, P_PROPN).reading("ケア")],
+                        }
+                    };
+                    let r = catch(|| -> Result<Dict, String> {
+                        let base = load(&e4.dir, &bare_plugins(&pos_of(P_NOUN)), e4.system.clone(), vec![])?;
+                        let mut b = sudachi::dic::build::DictBuilder::new_user(&base);
+                        for &k in order {
+                            let mut csv = rows_to_csv(&chunk_rows(k));
+                            if k == 1 {
+                                csv.push_str("きい,1,1\n");
+                                if b.read_lexicon(csv.as_bytes()).is_ok() {
+                                    return Err("the malformed record was accepted".into());
+                                }
+                            } else {
+                                b.read_lexicon(csv.as_bytes()).map_err(|e| format!("read_lexicon({}): {}", k, e))?;
+                            }
+                        }
+                        b.resolve().map_err(|e| format!("resolve: {}", e))?;
+                        let mut out = Vec::new();
+                        b.compile(&mut out).map_err(|e| format!("compile: {}", e))?;
+                        Ok(Arc::new(load(&e4.dir, &bare_plugins(&pos_of(P_NOUN)), e4.system.clone(), vec![out])?))
+                    });
+                    let dict = match r {
+                        Err(p) => {
+                            o.fail(Failure::panic(&ctx, &p));
+                            return o;
+                        }
+                        Ok(Err(e)) => {
+                            o.fail(Failure::new("load-error", format!("{}: {}", ctx, e)));
+                            return o;
+                        }
+                        Ok(Ok(d)) => d,
+                    };
+                    let r = catch(|| {
+                        let mut f: Vec<Failure> = Vec::new();
+                        let mut present = 0u64;
+                        for &k in order {
+                            for row in chunk_rows(k) {
+                                let hits: Vec<WordId> = dict.lexicon().lookup(row.surface.as_bytes(), 0).filter(|e| e.end == row.surface.len() && e.word_id.dic() == 1).map(|e| e.word_id).collect();
+                                if hits.is_empty() {
+                                    if k != 1 {
+                                        f.push(Failure::new("user-word-unreadable", format!("{}: the word {:?} of an accepted call is not in the loaded dictionary", ctx, row.surface)));
+                                    }
+                                    continue;
+                                }
+                                present += 1;
+                                for wid in hits {
+                                    match word_fields(&dict, wid) {
+                                        Err(e) => f.push(Failure::new("user-word-unreadable", format!("{}: word {:?}: {}", ctx, row.surface, e))),
+                                        Ok((pos, fields)) => {
+                                            if pos != row.pos.to_vec() {
+                                                f.push(Failure::new("part-of-speech-differs", format!("{}: word {:?} reports part of speech {:?}, its source declares {:?}", ctx, row.surface, pos, row.pos)));
+                                            }
+                                            if fields[0] != row.headword || fields[1] != row.reading {
+                                                f.push(Failure::new("user-word-fields", format!("{}: word {:?} reports {:?}", ctx, row.surface, fields)));
+                                            }
+                                        }
+                                    }
+                                    // and the morpheme says the same
+                                    match analyze(&dict, Mode::C, &row.surface) {
+                                        Ok(t) => {
+                                            if t.len() == 1 && t[0].dic_id == 1 && t[0].pos != row.pos.to_vec() {
+                                                f.push(Failure::new("part-of-speech-differs", format!("{}: {:?} is analysed with part of speech {:?}, its source declares {:?}", ctx, row.surface, t[0].pos, row.pos)));
+                                            }
+                                        }
+                                        Err(e) => f.push(Failure::new("analysis-error", format!("{}: analysing {:?}: {:?}", ctx, row.surface, e))),
+                                    }
+                                }
+                            }
+                        }
+                        (f, present)
+                    });
+                    match r {
+                        Err(p) => o.fail(Failure::panic(&format!("{}: reading back", ctx), &p)),
+                        Ok((f, present)) => {
+                            o.failures.extend(f);
+                            o.observe(&present);
+                        }
+                    }
+                    o
+                }),
+                describe_fn: Box::new(|p: &Vec<u8>| json!({"read_lexicon_calls": p})),
+            },
+            Strategy::Bfs,
+            Some(120),
+            json!({"call_orders": n}),
         ));
     }
     drive(rep, jobs, replay)
